@@ -1,4 +1,4 @@
 From Coq Require Extraction ExtrOcamlBasic.
-From GV Require Import Front.SpanCheck Front.LayoutCheck Front.Layout.
+From GV Require Import Front.SpanCheck Front.LayoutCheck Front.Layout Front.AstEq.
 Extraction Language OCaml.
-Extraction "model.ml" spans_ok first_bad layout_ok which_fails layout.
+Extraction "model.ml" spans_ok first_bad layout_ok which_fails layout ast_eqb.
